@@ -40,6 +40,7 @@ ADDENDA = {
 
 # additions of the sixth session (DESIGN.md 14.9)
 ADDENDA6 = {
+ "C01": "Sixth session: WFModCells - the links of a module end in the genome's own node objects and refer to its own trait objects - on every start genome and duplicate of the lineage traces.",
  "C02": "Sixth session: a tenth fitness family of finite values at the top of the float64 range (1e308-ish values, math.MaxFloat64 sentinels) whose sums over several species overflow (70 quick / 420 thorough scenarios).",
  "C04": "Sixth session: every third mating of two DIFFERENT genomes in the lineage traces happens under equal genome ids (every species numbers its babies from 0).",
  "C07": "Sixth session: the same gene lists on modular operands whose control gene is numbered above all genes / just above the operand's own last gene / below everything (46 evaluations per case and coefficient vector).",
